@@ -118,6 +118,39 @@ def check_recv(ctx, oid="C17.1"):
                 R.check(o3, "DOM", fi, "payload of %d bytes, %s: refused" % (L, " and ".join(x for x, bad in (("foreign network magic", not magic_ok), ("checksum mismatch", not chk_ok)) if bad)), kind == "raise",
                         "a message with %s is %s" % (" and ".join(x for x, bad in (("a foreign magic", not magic_ok), ("a wrong checksum", not chk_ok)) if bad), "accepted" if kind == "return" else "not decided"),
                         example="a message with an empty payload and a corrupted checksum field" if L == 0 else "a message of another network")
+    # size thresholds the receive path itself mentions (a strategy chosen by the payload size, a maximum chunk): one payload just
+    # above each, delivered whole / in chunks of that size / cut off by the peer -- whatever the code does differently there
+    import ast as _ast
+    reach = rules.reachable_functions(ctx.prog, [fi])
+    consts = set()
+    seen_cls = set()
+    for f in reach:
+        nodes = [f.node]
+        if f.cls and (f.module.name, f.cls) not in seen_cls:
+            seen_cls.add((f.module.name, f.cls))
+            cn = f.module.classnodes.get(f.cls)
+            nodes += [st for st in (cn.body if cn is not None else []) if isinstance(st, (_ast.Assign, _ast.AnnAssign))]
+        for nd in nodes:
+            for n in _ast.walk(nd):
+                if isinstance(n, _ast.Constant) and isinstance(n.value, int) and not isinstance(n.value, bool) and 300 < n.value <= (1 << 22):
+                    consts.add(n.value)
+    for c in sorted(consts)[:4]:
+        for L in (c + 1,):
+            total = 24 + L
+            for frags in ([], [c] * 4, [24, c, 1, 1]):
+                kind, val, want, st = play(L, frags)
+                n_scen += 1
+                ok = kind == "return" and isinstance(val, (list, tuple)) and len(val) == 3 and all(tm.veq(a, b) for a, b in zip(val, want)) and not st.unmodelled
+                R.check(oid, "TYPESTATE", fi, "payload of %d bytes (just above the size %d the receive path mentions), fragments %s: returns the message" % (L, c, frags or "whole"), ok,
+                        "with a %d-byte payload delivered in fragments %s recv_msg gives %s %s" % (L, frags[:4], kind, tm.show(val)[:160]), example="a %d-byte payload (a block)" % L)
+            for cut in (24, 24 + c, total - 1):
+                for frags in ([], [c] * 4):
+                    kind, val, want, st = play(L, frags, eof_at=cut)
+                    n_scen += 1
+                    R.check(oid, "TYPESTATE", fi, "payload of %d bytes, peer closes after %d of %d bytes (%s): an error, not a message and not an endless loop" % (L, cut, total, "chunks" if frags else "whole"),
+                            kind == "raise", "with a %d-byte payload and the peer closing after %d bytes recv_msg gives %s %s" % (L, cut, kind, tm.show(val)[:120]),
+                            example="the peer closing the connection in the middle of a large message (payload of %d bytes)" % L)
+    R.stat("recv_size_thresholds", sorted(consts)[:4])
     R.floor(oid, n_scen, 60, "recv_scenarios")
     return True
 
@@ -246,7 +279,10 @@ def run(ctx):
     check_recv(ctx)
     # no hidden state: the functions this property is about (and what they call) do not write module-level state, so a
     # verdict cannot depend on the history of earlier calls
-    hs = rules.hidden_state(ctx.prog, [ctx.fn(q) for q in ("bits.p2p.recv_msg", "bits.p2p.msg_ser", "bits.p2p.parse_payload")])
+    # parse_payload finds the parser of a command by name at run time: every payload builder / parser of the module is a root
+    codec = sorted(q for q in ("bits.p2p." + n for n in ctx.prog.modules["bits.p2p"].functions) if q.endswith("_payload") or ".parse_" in q or q.endswith(".inventory") or q.endswith("network_ip_addr"))
+    ctx.R.floor("C17.1", len(codec), 10, "payload_codec_functions")
+    hs = rules.hidden_state(ctx.prog, [ctx.fn(q) for q in ["bits.p2p.recv_msg", "bits.p2p.msg_ser", "bits.p2p.parse_payload"] + codec])
     ctx.R.check("C17.1", "OWN", ctx.fn("bits.p2p.recv_msg"), "no module-level state is written on these paths (results do not depend on earlier calls)", not hs,
             "%s %s" % ((hs[0][0].qualname, hs[0][2]) if hs else ("", "")), line=hs[0][1].lineno if hs else None,
             example="the same call repeated in one process after a call with other arguments / a failed call")
